@@ -117,6 +117,109 @@ theorem m7_exec_timed (t : ConnTxn Nat Cmd7 Rep7) (n : Node) (cs : List Cmd) (ts
   simp only [step, hin, herr, hw, checkWatch, if_true, Bool.false_eq_true, if_false]
   rw [hq, runQueue_ticks cs ts n n.s hl hm hn.2.symm]
 
+theorem monoFrom_append_left {a : Nat} {l1 l2 : List Nat} (h : MonoFrom a (l1 ++ l2)) : MonoFrom a l1 := by
+  induction l1 generalizing a with
+  | nil => trivial
+  | cons x l ih => exact ⟨h.1, ih h.2⟩
+
+theorem monoFrom_append_right {a : Nat} {l1 l2 : List Nat} (h : MonoFrom a (l1 ++ l2)) :
+    MonoFrom (l1.getLastD a) l2 := by
+  induction l1 generalizing a with
+  | nil => exact h
+  | cons x l ih =>
+    have := ih h.2
+    cases l with
+    | nil => exact h.2
+    | cons y l' => simpa [List.getLastD] using this
+
+/-- the verdict of the watch comparison when only time passes: the (i+1)-th snapshot is compared
+    with the reply of GET at the instant `ts[i]` -/
+def timedWatchFails (r : State) : List Nat → List (Nat × Rep7) → Bool
+  | t :: ts, (k, old) :: ws =>
+    if Rep7.data (Redis.step r t (.get k)).2 = old then timedWatchFails r ts ws else true
+  | _, _ => false
+
+theorem checkWatch_ticks (ws : List (Nat × Rep7)) : ∀ (ts rest : List Nat) (n : Node) (r : State),
+    ts.length = ws.length → MonoFrom n.now ts → n.s = purge r n.now →
+    (checkWatch backend7 (tickSched (ts ++ rest)) n ws).2.2 = timedWatchFails r ts ws ∧
+    (timedWatchFails r ts ws = false →
+      (checkWatch backend7 (tickSched (ts ++ rest)) n ws).1 = tickSched rest ∧
+      (checkWatch backend7 (tickSched (ts ++ rest)) n ws).2.1 =
+        { s := purge r (ts.getLastD n.now), now := ts.getLastD n.now }) := by
+  induction ws with
+  | nil =>
+    intro ts rest n r hl _ hr
+    cases ts with
+    | nil =>
+      refine ⟨rfl, fun _ => ⟨rfl, ?_⟩⟩
+      show n = { s := purge r n.now, now := n.now }
+      rw [← hr]
+    | cons _ _ => simp at hl
+  | cons p ws ih =>
+    intro ts rest n r hl hm hr
+    obtain ⟨k, old⟩ := p
+    cases ts with
+    | nil => simp at hl
+    | cons t ts' =>
+      obtain ⟨h1, h2⟩ := hm
+      have hl' : ts'.length = ws.length := by simpa using hl
+      have hs1 : foreign backend7 n [Cmd7.tick t] = { s := purge r t, now := t } := by
+        show ({ s := purge n.s t, now := t } : Node) = _
+        rw [hr, Redis.purge_purge_le r h1]
+      have hget : backend7.getReply { s := purge r t, now := t } k = .data (Redis.step r t (.get k)).2 := by
+        show Rep7.data (Redis.step (purge r t) t (.get k)).2 = _
+        rw [step_purge_le r (Nat.le_refl t)]
+      rw [show tickSched ((t :: ts') ++ rest) = [Cmd7.tick t] :: tickSched (ts' ++ rest) from rfl]
+      simp only [checkWatch, List.headD_cons, List.tail_cons, timedWatchFails, hs1, hget]
+      by_cases he : Rep7.data (Redis.step r t (.get k)).2 = old
+      · rw [if_pos he, if_pos he]
+        obtain ⟨a, b⟩ := ih ts' rest { s := purge r t, now := t } r hl' h2 rfl
+        refine ⟨a, fun hf => ?_⟩
+        obtain ⟨b1, b2⟩ := b hf
+        refine ⟨b1, ?_⟩
+        rw [b2]
+        cases ts' with
+        | nil => rfl
+        | cons x xs => simp [List.getLastD]
+      · rw [if_neg he, if_neg he]
+        exact ⟨rfl, fun hf => by cases hf⟩
+
+/-- **EXEC when only time passes, watch comparison included**: the clock reads `tw[i]` when the
+    (i+1)-th snapshot is compared and `tq[j]` when the (j+1)-th queued command is replayed
+    (non-decreasing).  EXEC answers nil iff some snapshot differs from the reply of GET AT THE INSTANT
+    OF ITS COMPARISON (a watched key whose deadline is reached while EXEC is comparing is a change);
+    otherwise its results are `Redis.run` of the queue at the instants of replay. -/
+theorem m7_exec_timed_watch (t : ConnTxn Nat Cmd7 Rep7) (n : Node) (cs : List Cmd) (tw tq : List Nat)
+    (hin : t.inTxn = true) (herr : t.errors = false) (hq : t.queue = cs.map .data)
+    (hlw : tw.length = t.watched.length) (hlq : tq.length = cs.length)
+    (hm : MonoFrom n.now (tw ++ tq)) (hn : NodeOk n) :
+    (step backend7 (tickSched (tw ++ tq)) t n .exec).2.2 =
+      if timedWatchFails n.s tw t.watched then .nil
+      else .results ((Redis.run n.s (tq.zip cs)).2.map .data) := by
+  have hmw : MonoFrom n.now tw := monoFrom_append_left hm
+  obtain ⟨v, rest⟩ := checkWatch_ticks t.watched tw tq n n.s hlw hmw hn.2.symm
+  simp only [step, hin, herr, if_true, Bool.false_eq_true, if_false]
+  rw [v]
+  cases hf : timedWatchFails n.s tw t.watched
+  · obtain ⟨r1, r2⟩ := rest hf
+    simp only [Bool.false_eq_true, if_false]
+    rw [r1, r2, hq]
+    have hmq : MonoFrom (tw.getLastD n.now) tq := monoFrom_append_right hm
+    rw [runQueue_ticks cs tq { s := purge n.s (tw.getLastD n.now), now := tw.getLastD n.now } n.s hlq hmq rfl]
+  · simp
+
+/-- non-vacuity of `m7_exec_timed_watch`: a watched key with deadline 1100; the comparison happens
+    at 1100: nil.  At 1099: the queue runs, and its second GET (at 1100) finds the key gone. -/
+example :
+    let n : Node := { s := [(1, { val := .str [118], dl := some 1100 })], now := 1000 }
+    let t : ConnTxn Nat Cmd7 Rep7 :=
+      { inTxn := true, queue := [.data (.get 1), .data (.get 1)], errors := false,
+        watched := [(1, .data (.bulk [118]))] }
+    (step backend7 (tickSched ([1100] ++ [1100, 1100])) t n .exec).2.2 = .nil ∧
+    (step backend7 (tickSched ([1099] ++ [1099, 1100])) t n .exec).2.2 =
+      .results [.data (.bulk [118]), .data .nil] := by
+  decide
+
 /-- non-vacuity of `m7_exec_timed`: `SET k v PX 100` at 1000, then `MULTI; GET k; GET k; EXEC` with
     the clock at 1099 for the first GET and at 1100 for the second: `[v, nil]` -/
 example :
@@ -340,6 +443,59 @@ theorem m7_exec_serializable_other_keys (sched : List (List Cmd7)) (t : ConnTxn 
     (fun f hm => by
       obtain ⟨Kf, h1, h2, h3⟩ := hf f hm
       exact m7_indep f Kf h1 t.queue (t.watched.map (·.1)) h2 h3)
+
+/-- a READ-ONLY command of another client (any read of the reference model, on ANY keys — the
+    transaction's own keys included — and the keyspace-wide reads KEYS / DBSIZE / RANDOMKEY) leaves a
+    node as it is, hence is independent of every transaction -/
+theorem m7_indep_readonly (f : Cmd) (hro : Redis.isReadOnly f = true) (q : List Cmd7) (ws : List Nat) :
+    Indep backend7 NodeOk q ws (.data f) := by
+  have hnode : ∀ n, NodeOk n → (exec7 n (.data f)).1 = n := by
+    intro n hn
+    rw [exec7_data hn, Redis.exec_ro hro, hn.2]
+  refine ⟨?_, ?_, ?_⟩
+  · intro c _ n hn
+    show (exec7 (exec7 n (.data f)).1 c).1 = (exec7 (exec7 n c).1 (.data f)).1
+    rw [hnode n hn, hnode _ (exec7_ok hn c)]
+  · intro c _ n hn
+    show (exec7 (exec7 n (.data f)).1 c).2 = (exec7 n c).2
+    rw [hnode n hn]
+  · intro k _ n hn
+    show backend7.getReply (exec7 n (.data f)).1 k = backend7.getReply n k
+    rw [hnode n hn]
+
+/-- **EXEC over M7 is atomic with respect to readers and to clients on other keys**, under EVERY
+    schedule: every command served to the other clients while EXEC runs is either READ-ONLY (on any
+    keys) or names keys the transaction neither queues nor watches — the outcome of the transaction
+    (node, reply, watch verdict) is the serial one.  (What a concurrent READER sees in between is
+    the reader's matter: it may see half of the transaction — per-command atomicity only.) -/
+theorem m7_exec_serializable (sched : List (List Cmd7)) (t : ConnTxn Nat Cmd7 Rep7)
+    (n : Node) (hin : t.inTxn = true) (herr : t.errors = false) (hn : NodeOk n)
+    (hf : ∀ f ∈ sched.flatten,
+      (∃ d, f = .data d ∧ Redis.isReadOnly d = true) ∨
+      ∃ Kf, keysOf f = some Kf ∧
+        (∀ c ∈ t.queue, ∃ Kc, keysOf c = some Kc ∧ ∀ k ∈ Kf, k ∉ Kc) ∧
+        ∀ k ∈ t.watched.map (·.1), k ∉ Kf) :
+    ((step backend7 sched t n .exec).2.1, (step backend7 sched t n .exec).2.2) =
+      serialExec backend7 t n [] sched.flatten :=
+  exec_serializable_of_independent backend7 NodeOk (fun s c h => exec7_ok h c) sched t n hin herr hn
+    (fun f hm => by
+      rcases hf f hm with ⟨d, rfl, hro⟩ | ⟨Kf, h1, h2, h3⟩
+      · exact m7_indep_readonly d hro t.queue (t.watched.map (·.1))
+      · exact m7_indep f Kf h1 t.queue (t.watched.map (·.1)) h2 h3)
+
+/-- non-vacuity of the reader case: `MULTI; INCR 1; INCR 1; EXEC` with another client's `GET 1`,
+    `KEYS`, `DBSIZE` served between the replayed commands: the transaction's outcome is the serial one -/
+example :
+    let t : ConnTxn Nat Cmd7 Rep7 :=
+      { inTxn := true, queue := [.data (.incr 1), .data (.incr 1)], errors := false, watched := [(1, .data .nil)] }
+    let sched : List (List Cmd7) := [[], [.data (.get 1)], [.data .keys, .data .dbsize], [.data (.lrange 1 0 (-1))]]
+    (∀ f ∈ sched.flatten, ∃ d, f = .data d ∧ Redis.isReadOnly d = true) ∧
+    (step backend7 sched t (Node.init 1000) .exec).2.2 = .results [.data (.int 1), .data (.int 2)] := by
+  refine ⟨?_, by decide⟩
+  intro f hf
+  simp only [List.flatten_cons, List.flatten_nil, List.nil_append, List.append_nil, List.cons_append,
+    List.mem_cons, List.not_mem_nil, or_false] at hf
+  rcases hf with rfl | rfl | rfl | rfl <;> exact ⟨_, rfl, rfl⟩
 
 /-- non-vacuity: a transaction on keys 1 and 2 (key 1 watched; a list command, an expiry command)
     with the other clients running a two-key RENAME 3→4, an MSET on 5 and 6, and a ZADD on 7 between
